@@ -34,7 +34,7 @@ Definition lit_float (s : string) : float :=
   | "" => nan
   end.
 Definition fprogram_of_script (script : string) : option (list string * fprogram) :=
-  match program_of_script script with
+  match program_of_script_checked script with
   | Some (names, p) => Some (names, program_map string float lit_float p)
   | None => None
   end.
